@@ -34,7 +34,8 @@ Visit(G, sw, e, st) ==
     [] n.k = "any" -> R2(FALSE, st)
     [] n.k \in {"and", "not", "opt", "star"} ->
          IF sw.descend THEN R2(TRUE, Visit(G, sw, n.kids[1], st).st) ELSE R2(TRUE, st)
-    [] n.k = "plus" -> IF sw.descend THEN R2(FALSE, Visit(G, sw, n.kids[1], st).st) ELSE R2(FALSE, st)
+    [] n.k = "plus" ->                                                     \* e+ is nullable when e is (repair of F38)
+         IF sw.descend THEN LET r == Visit(G, sw, n.kids[1], st) IN R2(r.v, [r.st EXCEPT !.nf[e] = r.v]) ELSE R2(FALSE, st)
     [] n.k = "label" -> Visit(G, sw, n.kids[1], st)
     [] n.k = "action" -> LET r == Visit(G, sw, n.kids[1], st) IN R2(r.v, [r.st EXCEPT !.nf[e] = r.v])
     [] n.k = "recover" ->                                                  \* both operands are visited (repair of F29)
@@ -73,9 +74,8 @@ IsNul(G, st, e) ==
     [] n.k = "cls" -> FALSE
     [] n.k = "any" -> FALSE
     [] n.k \in {"and", "not", "opt", "star"} -> TRUE
-    [] n.k = "plus" -> FALSE
     [] n.k = "label" -> IsNul(G, st, n.kids[1])
-    [] n.k \in {"action", "recover", "seq", "choice", "ref"} -> st.nf[e]
+    [] n.k \in {"plus", "action", "recover", "seq", "choice", "ref"} -> st.nf[e]
     [] OTHER -> TRUE
 IsNulB(G, sw, st, e) == IF G.nodes[e].k = "cls" /\ ~sw.descend
                         THEN (Len(G.nodes[e].s) = 0 /\ Len(G.nodes[e].rng) = 0 /\ Len(G.nodes[e].ucl) = 0) ELSE IsNul(G, st, e)
